@@ -409,6 +409,11 @@ def aggregate_workload(ctx, runs) -> None:
                     tests.append(("qartod", "gross_range_test", {"fail_span": [0, 1003 + wi], "suspect_span": [1000, 1002]}))
                 if ntests > 2:
                     tests.append(("qartod", "spike_test", {"suspect_threshold": 0.5, "fail_threshold": 5}))
+                if rng.random() < 0.5:
+                    # tests of other packages use the same flags and belong to the roll-up as well
+                    tests.append(("axds", "valid_range_test", {"valid_span": [1000 + wi, 1002]}))
+                if rng.random() < 0.3:
+                    tests.append(("argo", "pressure_increasing_test", {}))
                 contexts.append({"window": w, "streams": {"v1": tests}})
             res, err = run_frontend("pandas", tb, build_config(contexts), scratch)
             if err is not None:
